@@ -71,7 +71,9 @@ func (g graph) hasDiamond() bool {
 func name(i int) string { return fmt.Sprintf("m%d", i) }
 
 // mode: 0 = module with a service, 1 = init function returning a nil service, 2 = nil init function
-func buildManager(g graph, mode func(i int) int, regOrder []int, variadic bool, order *[]string) (*modules.Manager, error) {
+// declSeed > 0: the dependencies are declared edge by edge in an order derived from the seed (not module
+// by module, bottom-up), and the dependency list of some module is read between two declarations.
+func buildManager(g graph, mode func(i int) int, regOrder []int, variadic bool, order *[]string, declSeed int) (*modules.Manager, error) {
 	mm := modules.NewManager(log.NewNopLogger())
 	for _, i := range regOrder {
 		i := i
@@ -86,6 +88,25 @@ func buildManager(g graph, mode func(i int) int, regOrder []int, variadic bool, 
 				return services.NewIdleService(nil, nil), nil
 			})
 		}
+	}
+	if declSeed > 0 {
+		type edge struct{ from, to int }
+		var edges []edge
+		for i := 0; i < g.N; i++ {
+			for _, d := range g.Deps[i] {
+				edges = append(edges, edge{i, d})
+			}
+		}
+		sort.SliceStable(edges, func(a, b int) bool {
+			return vx.Mix(uint64(declSeed)*1000003+uint64(edges[a].from)*131+uint64(edges[a].to), 1<<30) < vx.Mix(uint64(declSeed)*1000003+uint64(edges[b].from)*131+uint64(edges[b].to), 1<<30)
+		})
+		for k, e := range edges {
+			if err := mm.AddDependency(name(e.from), name(e.to)); err != nil {
+				return nil, err
+			}
+			_ = mm.DependenciesForModule(name((k*declSeed + e.from) % g.N))
+		}
+		return mm, nil
 	}
 	for i := 0; i < g.N; i++ {
 		ds := g.Deps[i]
@@ -112,9 +133,9 @@ func buildManager(g graph, mode func(i int) int, regOrder []int, variadic bool, 
 }
 
 // checkInit initialises the targets and checks the init log; then cycle rejection.
-func checkInit(g graph, targets []int, mode func(i int) int, regOrder []int, variadic bool) error {
+func checkInit(g graph, targets []int, mode func(i int) int, regOrder []int, variadic bool, declSeed int) error {
 	var order []string
-	mm, err := buildManager(g, mode, regOrder, variadic, &order)
+	mm, err := buildManager(g, mode, regOrder, variadic, &order, declSeed)
 	if err != nil {
 		return fmt.Errorf("AddDependency on an acyclic graph failed: %v", err)
 	}
@@ -222,6 +243,7 @@ type initCase struct {
 	ModeSeed int   `json:"mode_seed"`
 	RegOrder []int `json:"reg_order"`
 	Variadic bool  `json:"variadic"`
+	DeclSeed int   `json:"declaration_order_seed"`
 }
 
 func (c initCase) mode() func(int) int {
@@ -241,7 +263,7 @@ func (c initCase) mode() func(int) int {
 func TestInitOrderExhaustive(t *testing.T) {
 	var rc initCase
 	if vx.ReplayCase("TestInitOrderExhaustive", &rc) {
-		if err := checkInit(rc.G, rc.Targets, rc.mode(), rc.RegOrder, rc.Variadic); err != nil {
+		if err := checkInit(rc.G, rc.Targets, rc.mode(), rc.RegOrder, rc.Variadic, rc.DeclSeed); err != nil {
 			t.Fatalf("replay: %v", err)
 		}
 		return
@@ -288,7 +310,7 @@ func TestInitOrderExhaustive(t *testing.T) {
 					seen[x] = true
 					reg = append(reg, x)
 				}
-				c := initCase{G: g, Targets: tl, ModeSeed: idx % 11, RegOrder: reg, Variadic: idx%2 == 0}
+				c := initCase{G: g, Targets: tl, ModeSeed: idx % 11, RegOrder: reg, Variadic: idx%2 == 0, DeclSeed: (idx / 2) % 4}
 				vx.Eval(1)
 				nt := diamond
 				for _, a := range tl {
@@ -301,7 +323,7 @@ func TestInitOrderExhaustive(t *testing.T) {
 				if nt {
 					vx.NonTrivial(vx.FP("init", n, mask, targets))
 				}
-				if err := checkInit(g, tl, c.mode(), reg, c.Variadic); err != nil {
+				if err := checkInit(g, tl, c.mode(), reg, c.Variadic, c.DeclSeed); err != nil {
 					vx.Failf(t, "TestInitOrderExhaustive", c, "%v\ngraph=%v targets=%v", err, g.Deps, tl)
 				}
 			}
@@ -334,12 +356,12 @@ func TestInitOrderRapid(t *testing.T) {
 		g := genGraph(rt, 12)
 		reg := rapid.Permutation(seq(g.N)).Draw(rt, "regOrder")
 		tl := rapid.SliceOfNDistinct(rapid.IntRange(0, g.N-1), 1, g.N, func(i int) int { return i }).Draw(rt, "targets")
-		c := initCase{G: g, Targets: tl, ModeSeed: rapid.IntRange(0, 10).Draw(rt, "modeSeed"), RegOrder: reg, Variadic: rapid.Bool().Draw(rt, "variadic")}
+		c := initCase{G: g, Targets: tl, ModeSeed: rapid.IntRange(0, 10).Draw(rt, "modeSeed"), RegOrder: reg, Variadic: rapid.Bool().Draw(rt, "variadic"), DeclSeed: rapid.IntRange(0, 60).Draw(rt, "declarationOrder")}
 		vx.Eval(1)
 		if g.hasDiamond() {
 			vx.NonTrivial(vx.FP("initr", fmt.Sprint(c)))
 		}
-		if err := checkInit(g, tl, c.mode(), reg, c.Variadic); err != nil {
+		if err := checkInit(g, tl, c.mode(), reg, c.Variadic, c.DeclSeed); err != nil {
 			rt.Fatalf("%v\ngraph=%v targets=%v", err, g.Deps, tl)
 		}
 	})
